@@ -447,6 +447,23 @@ pub fn run(tier: &Tier) -> i32 {
         c.outcome(&format!("{:?}/{}", rr.stop, if res.is_none() { "conforms" } else { "differs" }));
         report_cli(rep, &cs.site, res, &src, &cs.stdin_lines, false, &out, json!({"what": cs.note, "stdin_raw": cs.stdin_raw}));
     });
+    // the reading services with a standard input on which every read FAILS (a directory): the run must still end
+    // normally (what the registers hold afterwards is not documented and not judged)
+    let unreadable = AtomicU64::new(0);
+    {
+        let mut seen = std::collections::HashSet::new();
+        let srcs: Vec<String> = cases.iter().filter(|cs| cs.site.contains("ah=01") || cs.site.contains("ah=0a") || cs.site.starts_with("service")).map(|cs| render(&cs.prog)).filter(|s| seen.insert(s.clone())).collect();
+        srcs.par_iter().for_each(|src| {
+            let mut o = CliOpts { cap: 4 << 20, ..Default::default() };
+            o.stdin_unreadable = true;
+            let out = run_cli(src, "", &o);
+            unreadable.fetch_add(1, Ordering::Relaxed);
+            c.add_exec(1);
+            if let Some(a) = out.abnormal() {
+                rep.report(Viol { site: "reading service / unreadable stdin".into(), field: "exit".into(), vars: vec![], got_val: None, expected: "normal termination although every read of the standard input fails".into(), got: format!("{}: {}", a, clip_text(&out.summary(), 800)), case: json!({"src": src, "stdin": "<a directory>", "interpreted": false}), weight: src.len() as u64 });
+            }
+        });
+    }
     for cs in cases.iter().step_by(cases.len() / 10 + 1) {
         let src = render(&cs.prog);
         let shown: String = src.lines().filter(|l| !l.starts_with("db ")).collect::<Vec<_>>().join("\n");
@@ -468,8 +485,8 @@ pub fn run(tier: &Tier) -> i32 {
     }
     let mut cov = Coverage::default();
     cov.exhaustive = true;
-    cov.rule = "every run is the real binary with a scripted stdin (pipe closed after the script). INT 21h/02: all 256 DL values x 2 prior AL. INT 21h/01: 10 stdin shapes (closed, empty line, short, exactly capacity, longer, no trailing newline, two lines, 300 characters, UTF-8) x 2 prior AL, followed by a second read and an echo. INT 21h/0Ah: 5 buffer placements (low, offset wrap at 16 bits, crossing 2^20, ending exactly at 0xFFFFF, header split by the wrap) x capacities {0,1,2,5,16,255} (thorough: all 256) x the 9 stdin shapes, the buffer surrounded by 0xEE markers; plus a line of 1-, 2-, 3- and 4-byte characters cut by every capacity 0..length+1 (the cut falls inside a character). INT 10h/0Ah: AL x CX lattice (thorough: all 256 AL x 15 CX up to 65535). INT 10h/13h: 6 (ES,BP) placements incl. text whose high bytes form well-formed UTF-8, strings crossing 2^20 and BP+i wrapping at 16 bits x DL x CX (thorough: all 256 DL x 12 CX up to 65535). Every AH value 0..255 other than the supported ones for both interrupts, at the first / a middle / the last line. All 25 ordered pairs of services x 3 stdin scripts (thorough: all 125 ordered triples x 4 scripts). After each service the program prints all registers, the flags, the marker window around the buffer, the first 48 and the last 48 bytes of memory; service output is matched byte for byte and every printed field against the reference state".into();
-    cov.bounds = json!({"groups": groups.iter().map(|(n, k)| json!({"group": n, "runs": k})).collect::<Vec<_>>(), "service_output_bytes_matched": out_bytes.load(Ordering::Relaxed), "unsupported_reports_checked": unsup.load(Ordering::Relaxed), "cases_conforming_only_in_dos_encoding": dos_mode_used.load(Ordering::Relaxed), "tier": tier.name()});
+    cov.rule = "every run is the real binary with a scripted stdin (pipe closed after the script). INT 21h/02: all 256 DL values x 2 prior AL. INT 21h/01: 10 stdin shapes (closed, empty line, short, exactly capacity, longer, no trailing newline, two lines, 300 characters, UTF-8) x 2 prior AL, followed by a second read and an echo. INT 21h/0Ah: 5 buffer placements (low, offset wrap at 16 bits, crossing 2^20, ending exactly at 0xFFFFF, header split by the wrap) x capacities {0,1,2,5,16,255} (thorough: all 256) x the 9 stdin shapes, the buffer surrounded by 0xEE markers; plus a line of 1-, 2-, 3- and 4-byte characters cut by every capacity 0..length+1 (the cut falls inside a character). INT 10h/0Ah: AL x CX lattice (thorough: all 256 AL x 15 CX up to 65535). INT 10h/13h: 6 (ES,BP) placements incl. text whose high bytes form well-formed UTF-8, strings crossing 2^20 and BP+i wrapping at 16 bits x DL x CX (thorough: all 256 DL x 12 CX up to 65535). Every AH value 0..255 other than the supported ones for both interrupts, at the first / a middle / the last line. All 25 ordered pairs of services x 3 stdin scripts (thorough: all 125 ordered triples x 4 scripts). After each service the program prints all registers, the flags, the marker window around the buffer, the first 48 and the last 48 bytes of memory; service output is matched byte for byte and every printed field against the reference state. Every distinct program that reads input also runs once with a standard input on which every read fails and must end normally".into();
+    cov.bounds = json!({"groups": groups.iter().map(|(n, k)| json!({"group": n, "runs": k})).collect::<Vec<_>>(), "service_output_bytes_matched": out_bytes.load(Ordering::Relaxed), "unsupported_reports_checked": unsup.load(Ordering::Relaxed), "cases_conforming_only_in_dos_encoding": dos_mode_used.load(Ordering::Relaxed), "programs_run_with_unreadable_stdin": unreadable.load(Ordering::Relaxed), "tier": tier.name()});
     cov.assumptions = common_assumptions();
     cov.assumptions.push("characters >= 0x80 may be written as the raw byte or as the UTF-8 encoding of the same code point".into());
     cov.assumptions.push("INT 21h/0Ah: the line terminator is not part of the line; admissible encodings: count = min(length, capacity) with exactly those bytes stored, or the DOS encoding (capacity includes an uncounted carriage return stored after the text); anything else, and any change outside the buffer, is a violation. INT 21h/01h on an empty line returns the newline character, at end of input 0".into());
